@@ -98,7 +98,12 @@ fn remove_percent_suffix(arg: &str) -> &str {
 }
 
 fn ensure_display_width_1(what: &str, arg: String) -> String {
-    match arg.grapheme_indices(true).count() {
+    // One cluster may still be two columns wide, or none.
+    let width = match arg.grapheme_indices(true).count() {
+        1 => arg.width(),
+        n => n,
+    };
+    match width {
         INLINE_SYMBOL_WIDTH_1 => arg,
         width => fatal(format!(
             "Invalid value for {what}, display width of \"{arg}\" must be {INLINE_SYMBOL_WIDTH_1} but is {width}",
